@@ -364,7 +364,38 @@ func sSl(sort, s, a, b string) string {
 	}
 	return app(seqFn(sort, "sl"), s, a, b)
 }
-func sApp(sort, a, b string) string      { return app(seqFn(sort, "app"), a, b) }
+func sApp(sort, a, b string) string {
+	// append(s, v): s ++ [v] is written build(s, v), whose length and elements have direct axioms
+	pre := "(" + seqFn(sort, "build") + " " + sEmpty(sort) + " "
+	if strings.HasPrefix(b, pre) && strings.HasSuffix(b, ")") {
+		v := b[len(pre) : len(b)-1]
+		if balanced(v) {
+			return sBuild(sort, a, v)
+		}
+	}
+	return app(seqFn(sort, "app"), a, b)
+}
+
+// balanced reports whether s is a single well-parenthesised term.
+func balanced(s string) bool {
+	d := 0
+	for i := 0; i < len(s); i++ {
+		switch s[i] {
+		case '(':
+			d++
+		case ')':
+			d--
+			if d < 0 || (d == 0 && i != len(s)-1) {
+				return false
+			}
+		case ' ':
+			if d == 0 {
+				return false
+			}
+		}
+	}
+	return d == 0
+}
 func sEmpty(sort string) string          { return seqFn(sort, "empty") }
 func sBuild(sort, s, v string) string    { return app(seqFn(sort, "build"), s, v) }
 func sUpd(sort, s, i, v string) string   { return app(seqFn(sort, "upd"), s, i, v) }
